@@ -5,6 +5,7 @@ import (
 	"os"
 	"path/filepath"
 	"regexp"
+	"sort"
 	"strings"
 	"time"
 
@@ -15,9 +16,9 @@ func init() {
 	core.Register(&core.Spec{
 		ID: "C13", Level: "exploration",
 		Rule: "one case = one program (the C12 generator plus loads of CSV/TSV/LTSV/fixed-length/JSONL/JSON files of 2, 299..301 and 2000 rows, user-defined functions and aggregates called per row, cursors over large queries, DML on large tables, and statements that fail inside a worker) executed by the race-detector build of the real binary " +
-			"(go build -race) with --cpu 4..16 and seeded scheduling jitter, repeated 3x (quick) / 12x (thorough); every 'WARNING: DATA RACE' block with a csvq frame is a violation, deduplicated by the pair of top csvq frames. " +
+			"(go build -race) with --cpu 4..16 and seeded scheduling jitter, repeated 3x (quick) / 6x (thorough); every 'WARNING: DATA RACE' block with a csvq frame is a violation, deduplicated by the pair of top csvq frames. " +
 			"non-trivial = the run started >1 worker goroutine in some section or used the two-goroutine file loader on >=299 rows; distinct = program digest.",
-		Quick: 64, Thorough: 400, FloorQuick: 30, FloorThorough: 200,
+		Quick: 64, Thorough: 320, FloorQuick: 30, FloorThorough: 150,
 		CaseTimeout: 15 * time.Minute,
 		Assumptions: []string{"the race detector reports only races on accesses that happened in these runs and forgets old accesses (bounded shadow history); GORACE history_size=5 and repetition with jitter mitigate, they do not eliminate"},
 		Fn:          c13Case,
@@ -103,7 +104,7 @@ func c13Case(w *core.Worker, i int) {
 	files, prog, _, _ := genC13(r, i)
 	reps := 3
 	if w.Tier == "thorough" {
-		reps = 12
+		reps = 6
 	}
 	parallel := false
 	total := 0
@@ -166,5 +167,10 @@ func c13Case(w *core.Worker, i int) {
 	if i < 4 {
 		w.Sample(map[string]interface{}{"program": truncateStr(prog, 500), "executions": total})
 	}
-	w.Case(core.Digest(prog, fmt.Sprint(len(files))), parallel)
+	var fk []string
+	for n, c := range files {
+		fk = append(fk, n, c)
+	}
+	sort.Strings(fk)
+	w.Case(core.Digest(append([]string{prog}, fk...)...), parallel)
 }
